@@ -119,6 +119,9 @@ fn make_ring(flavour: &str, consts: &Value) -> Option<Box<dyn Sut>> {
         },
         "fixed" => Box::new(ring::RingSut::<FixedHeapBuf<Tag>>::new(consts, |_| None, false)),
         "growing" => Box::new(ring::RingSut::<GrowingHeapBuf<Tag>>::new(consts, |_| None, true)),
+        // zero-sized elements
+        "fixed-zst" => Box::new(ring::RingSut::<FixedHeapBuf<ring::ZTag>>::new(consts, |_| None, false)),
+        "growing-zst" => Box::new(ring::RingSut::<GrowingHeapBuf<ring::ZTag>>::new(consts, |_| None, true)),
         _ => return None,
     })
 }
